@@ -401,6 +401,32 @@ func (l *Logger) SetReqTemplate(t string) {
 	l.reqTemplate = template.Must(template.New("req-log").Parse(t))
 }
 
+// ValidateTemplates checks that each of the given logging formats parses and
+// can be rendered with the data it is executed with. A format naming a field
+// the log record does not have is reported here, when the configuration is
+// loaded, instead of failing while a request is being logged.
+func ValidateTemplates(standardFormat, authFormat, requestFormat string) []error {
+	var errs []error
+	for _, t := range []struct {
+		name   string
+		format string
+		data   interface{}
+	}{
+		{"standard logging format", standardFormat, stdLogMessageData{}},
+		{"auth logging format", authFormat, authLogMessageData{}},
+		{"request logging format", requestFormat, reqLogMessageData{}},
+	} {
+		tmpl, err := template.New(t.name).Parse(t.format)
+		if err == nil {
+			err = tmpl.Execute(io.Discard, t.data)
+		}
+		if err != nil {
+			errs = append(errs, fmt.Errorf("invalid %s: %v", t.name, err))
+		}
+	}
+	return errs
+}
+
 // These functions utilize the standard logger.
 
 // FormatTimestamp returns a formatted timestamp for the standard logger.
